@@ -165,3 +165,107 @@ func CellStores(a *ssa.Alloc) (vals []ssa.Value) {
 	}
 	return vals
 }
+
+// ReachingStores returns the values that may be in local cell `cell` when
+// instruction `at` executes: the stores that reach it without an
+// intervening store.  zero is true when the cell may still hold its zero
+// value; clobbered is true when an event that can modify the cell through
+// an alias (RunDefers with a capturing deferred closure, a call that
+// receives the cell's address or a closure capturing it) lies on a path.
+func ReachingStores(cell *ssa.Alloc, at ssa.Instruction) (vals []ssa.Value, zero, clobbered bool) {
+	captured := false
+	for _, u := range Users(cell) {
+		if _, ok := u.(*ssa.MakeClosure); ok {
+			captured = true
+		}
+	}
+	type pos struct {
+		b *ssa.BasicBlock
+		i int // scan instructions [0, i) backwards
+	}
+	start := PointOf(at)
+	work := []pos{{start.Block, start.Idx}}
+	seen := map[*ssa.BasicBlock]bool{}
+	seenVal := map[ssa.Value]bool{}
+	for len(work) > 0 {
+		p := work[len(work)-1]
+		work = work[:len(work)-1]
+		stopped := false
+		for i := p.i - 1; i >= 0 && !stopped; i-- {
+			switch x := p.b.Instrs[i].(type) {
+			case *ssa.Store:
+				if x.Addr == ssa.Value(cell) {
+					if !seenVal[x.Val] {
+						seenVal[x.Val] = true
+						vals = append(vals, x.Val)
+					}
+					stopped = true
+				}
+			case *ssa.Alloc:
+				if x == cell {
+					zero = true
+					stopped = true
+				}
+			case *ssa.RunDefers:
+				if captured {
+					clobbered = true
+					stopped = true
+				}
+			case ssa.CallInstruction:
+				if _, isDefer := x.(*ssa.Defer); isDefer {
+					continue
+				}
+				cc := x.Common()
+				for _, a := range cc.Args {
+					if a == ssa.Value(cell) {
+						clobbered = true
+						stopped = true
+					}
+				}
+				if mc, ok := cc.Value.(*ssa.MakeClosure); ok {
+					for _, b := range mc.Bindings {
+						if b == ssa.Value(cell) {
+							clobbered = true
+							stopped = true
+						}
+					}
+				}
+			}
+		}
+		if stopped {
+			continue
+		}
+		if len(p.b.Preds) == 0 {
+			zero = true
+			continue
+		}
+		for _, pr := range p.b.Preds {
+			if !seen[pr] {
+				seen[pr] = true
+				work = append(work, pos{pr, len(pr.Instrs)})
+			}
+		}
+	}
+	return vals, zero, clobbered
+}
+
+// ResolveCellLoad resolves a load of a local cell to the unique value stored
+// into it on every path, or returns v unchanged.
+func ResolveCellLoad(v ssa.Value) ssa.Value {
+	for i := 0; i < 4; i++ {
+		u, ok := v.(*ssa.UnOp)
+		if !ok {
+			return v
+		}
+		cell, ok := u.X.(*ssa.Alloc)
+		if !ok {
+			return v
+		}
+		vals, zero, clob := ReachingStores(cell, u)
+		if zero || clob || len(vals) != 1 {
+			return v
+		}
+		v = vals[0]
+	}
+	return v
+}
